@@ -36,11 +36,11 @@ MANIFEST = dict(
     design_ref="DESIGN.md §6 C19; design/misc.md",
     note="Trusted: Coq kernel + vm_compute; the hand model coq/theories/Time/Model.v with jiff's documented limits "
          "(Timestamp -377705023201 s ..= 253402207200.999999999 s, Span seconds <= 631107417600) as constants, "
-         "validated at the edges by the correspondence check.",
+         "taken from the implementation on every run (Gen/TimeLimits.v) and validated at the edges by the correspondence check.",
     technique="Coq proof over an executable integer model + model/implementation correspondence by vm_compute + metamorphic oracle",
 )
 
-THEOREMS = ["C19_add_sub", "C19_range_ok", "C19_range_err", "C19_duration_err", "C19_tz", "C19_tz_arith",
+THEOREMS = ["C19_add_sub", "C19_range_ok", "C19_range_err", "C19_duration_err", "C19_limits_sane", "C19_tz", "C19_tz_arith",
             "C19_zoned_add_sub"]
 
 TS_MIN_S = -377705023201
@@ -119,12 +119,36 @@ def rand_seconds(rng):
     return float(rng.choice([-1, 1]) * rng.randrange(0, 10 ** rng.randrange(1, 12)))
 
 
+LIMITS_HEADER = """(* GENERATED by tools/props/c19.py from the running implementation (hook numbat::verif::misc::datetime_limits:
+   jiff Timestamp::MIN / MAX and the largest argument Span::try_seconds accepts) — rewritten on every check run. *)
+From Coq Require Import ZArith.
+Local Open Scope Z_scope.
+"""
+
+
+def generate_limits(binary):
+    """reads the range constants from the implementation and writes Gen/TimeLimits.v (only when they changed)"""
+    o = common.run_harness(binary, "eval", ["@datetime-limits"], shards=1)[0]
+    if not o.startswith("LIMITS:"):
+        raise common.Broken("harness did not report the date-time limits: %r" % o)
+    lo, hi, hi_ns, span = [int(x) for x in o.split(":")[1:5]]
+    src = LIMITS_HEADER + "Definition gen_ts_min_s : Z := %d.\nDefinition gen_ts_max_s : Z := %d.\n" \
+        "Definition gen_ts_max_subsec_ns : Z := %d.\nDefinition gen_span_sec_max : Z := %d.\n" % (lo, hi, hi_ns, span)
+    path = os.path.join(common.COQ, "theories", "Gen", "TimeLimits.v")
+    if not os.path.exists(path) or open(path).read() != src:
+        open(path, "w").write(src)
+    return lo, hi, span
+
+
 def run(chk):
     binary, _ = common.build_harness()
+    global TS_MIN_S, TS_MAX_S, SPAN_MAX
+    TS_MIN_S, TS_MAX_S, SPAN_MAX = generate_limits(binary)       # the generators use the same constants
     proved = chk.prove("Props.C19", THEOREMS, ["theories/Props/C19.vo", "theories/Time/Exec.vo"])
     chk.trusted += [
         "model Time/Model.v is a hand port of vm.rs Op::AddToDateTime/SubFromDateTime/DiffDateTime and CallCallable TzConversion",
-        "jiff (calendar, tz database, Span/Zoned arithmetic, strptime/strftime) is not modelled; its range limits are constants of the model",
+        "jiff (calendar, tz database, Span/Zoned arithmetic, strptime/strftime incl. DST gaps/overlaps) is not modelled; its range "
+        "limits are read from the running implementation on every run (hook datetime_limits -> Gen/TimeLimits.v, table lemma C19_limits_sane)",
         "instants are built with from_unixtime_s and observed through Zoned::timestamp().as_nanosecond() (harness eval)",
         "the local time zone of the sessions is set explicitly (TZ: UTC, and Pacific/Chatham etc. for the zone-independence pass); "
         "there is no injectable clock, so now()/today() are not used by this check",
@@ -136,7 +160,7 @@ def run(chk):
     # ---- (A) exact-model cases: durations in seconds
     corpus = json.load(open(os.path.join(common.VERIF, "corpus", "c19.json")))
     exact = [(c["t"], float(c["d"])) for c in corpus]
-    for _ in range(500 if quick else 8000):
+    for _ in range(500 if quick else 4000):
         exact.append((rand_instant(rng), rand_seconds(rng)))
     lines = []
     for t, d in exact:
@@ -147,7 +171,7 @@ def run(chk):
                   "(%s + %s) - %s" % (instant_src(t), ds, instant_src(t))]
     # ---- (B) oracle cases: every time unit, both signs
     unit_cases = []
-    for _ in range(400 if quick else 6000):
+    for _ in range(400 if quick else 3000):
         u, size = rng.choice(TIME_UNITS)
         t = rng.randrange(-6 * 10 ** 10, 10 ** 11)
         x = rng.choice([-1, 1]) * rng.choice([rng.uniform(0, 10), rng.uniform(0, 1e4), float(rng.randrange(0, 1000)),
@@ -161,7 +185,7 @@ def run(chk):
                    "%s -> s" % ds]
     # ---- (C) zones, parse/format, non-finite durations
     zone_cases = []
-    for _ in range(150 if quick else 3000):
+    for _ in range(150 if quick else 1500):
         # instants over the whole supported range (years -9999 .. 9999; a day of margin so that the zone offset cannot
         # push the civil time out of range), half of them within a few centuries of today
         tt = rng.randrange(TS_MIN_S + 2 * 86400, TS_MAX_S - 2 * 86400) if rng.random() < 0.5 else rng.randrange(-6 * 10 ** 9, 9 * 10 ** 9)
@@ -179,7 +203,7 @@ def run(chk):
                    "(((%s -> tz(\"%s\")) + %s) - (%s -> tz(\"%s\"))) - ((%s + %s) - %s)" % (inst, z, dd, inst, z2, inst, dd, inst)]
     nflines = ["%s %s (%s s)" % (instant_src(0), op, v) for op in "+-" for v in ("sqrt(-1)", "(1e308 × 10)", "(-1e308 × 10)")]
     all_lines = lines + ulines + zlines + nflines
-    outs = common.run_harness(binary, "eval", all_lines)
+    outs = common.run_harness(binary, "eval", all_lines, timeout=3000)
     o_exact = outs[:len(lines)]
     o_unit = outs[len(lines):len(lines) + len(ulines)]
     o_zone = outs[len(lines) + len(ulines):len(lines) + len(ulines) + len(zlines)]
@@ -188,9 +212,9 @@ def run(chk):
     # the same exact cases in sessions whose LOCAL time zone is not UTC (from_unixtime_s gives a date-time in the local
     # zone): instants, durations and error kinds must not depend on it
     local_zone_runs = {}
-    zone_pass_lines = 450 if quick else len(lines)          # quick: the corpus and the first ~150 cases
+    zone_pass_lines = 450 if quick else 6000          # quick: the corpus and the first ~150 cases
     for z in (["Pacific/Chatham"] if quick else ["Pacific/Chatham", "America/St_Johns", "Asia/Kathmandu"]):
-        local_zone_runs[z] = common.run_harness(binary, "eval", lines[:zone_pass_lines], extra_args=("--tz", z))
+        local_zone_runs[z] = common.run_harness(binary, "eval", lines[:zone_pass_lines], extra_args=("--tz", z), timeout=3000)
 
     fails = []          # property violations on the implementation (with input)
 
@@ -235,7 +259,7 @@ def run(chk):
             mm, ee = math.frexp(abs(d))
             items.append(("show_case_f64 (%d)%%Z %s %d%%positive (%d)%%Z" % (
                 t * 10 ** 9, "true" if d < 0 else "false", int(mm * 2 ** 53), ee - 53), "@"))
-    model = common.coq_mismatches(["Time.Model", "Time.Exec"], items, "c19", shard_size=200,
+    model = common.coq_mismatches(["Time.Model", "Time.Exec"], items, "c19", shard_size=200, timeout=3000,
                                   prelude="From Coq Require Import QArith ZArith.") if proved else {}
     mismatches = []
     if proved:
